@@ -34,6 +34,7 @@ MENU = [
     ("a(i,j) = b(i,j) + c(i,j)", {"a": "ds", "b": "dd", "c": "ds"}, "llvm"),  # formats swapped between operands
     ("a(i) = b(i) + c(i) + d(i)", {"a": "s", "b": "s", "c": "s", "d": "s"}, "llvm"),       # same text up to ...
     ("a(i) = b(i) + (c(i) + d(i))", {"a": "s", "b": "s", "c": "s", "d": "s"}, "llvm"),     # ... the grouping
+    ("y(i) = A(i,j) * x(j) + b(i)", {"y": "d", "A": "ds", "x": "d", "b": "d"}, "llvm"),    # a sum over a contraction
 ]
 
 
@@ -205,7 +206,7 @@ def run(tier, seed):
     else:
         pick = states
     extra = [list(p) for p in itertools.permutations([0, 1, 2])] + [list(p) for p in itertools.permutations([4, 5, 3])]
-    extra += [[8], [9], [8, 9], [9, 8], [6, 7], [7, 6], [0, 8, 9], [9, 0, 8]]
+    extra += [[8], [9], [8, 9], [9, 8], [6, 7], [7, 6], [0, 8, 9], [9, 0, 8], [10], [10, 10], [10, 0, 10]]
     pick = pick + [h for h in extra if h not in pick]
     units = [{"histories": pick[k::NPROC]} for k in range(NPROC)]
     units = [u for u in units if u["histories"]]
@@ -289,10 +290,10 @@ def run(tier, seed):
     return run.finish(
         states=tot_states + seeds_run, transitions=total, traces_validated=run.counters["requests served"],
         evaluations=total, distinct_nontrivial=tot_states,
-        rule="(histories) every set of already-served requests from a menu of 10 colliding requests (same assignment "
+        rule="(histories) every set of already-served requests from a menu of 11 requests chosen to collide (same assignment "
              "with formats in another dict order, one mode changed, alpha-renamed twin, 2 vs 2.0, operand formats "
-             "swapped, b+c+d vs b+(c+d) on grouping-sensitive values) reached by replay on a cleared cache [quick: all states of size <= 2, the full state and all "
-             "orderings of the colliding groups; thorough: all 1024], then every request served in that state through "
+             "swapped, b+c+d vs b+(c+d) on grouping-sensitive values, a sum over a contraction) reached by replay on a cleared cache [quick: all states of size <= 2, the full state and all "
+             "orderings of the colliding groups; thorough: all 2048], then every request served in that state through "
              "generate_code (c, llvm), the CLI, tensor_method and a call: text, CLI output and raw result arrays must "
              "equal those of a fresh cache; a TensorMethod object is shared only by structurally equal problems. "
              "(configurations) fresh interpreters per PYTHONHASHSEED: sha1 of the text of every request of the "
